@@ -4,7 +4,7 @@
   Signac/Proofs/Conc*.lean.
 
   All theorems hold for ANY number of actors, ANY scripts over the alphabet
-  {Project(); open_job(sp).init(); job.doc[k]=v; job.doc(); len(project)} and ANY schedule
+  {Project(); open_job(sp).init(); job.doc[k]=v; job.doc=mapping; job.doc(); len(project)} and ANY schedule
   (list of actor indices, each entry = one file-system primitive of that actor); `hash` (the job
   id function) is an arbitrary parameter.
 -/
@@ -12,6 +12,7 @@ import Signac.Proofs.ConcInv
 import Signac.Proofs.ConcVisible
 import Signac.Proofs.ConcFinal
 import Signac.Proofs.ConcTerm
+import Signac.Proofs.ConcBoundary
 namespace Signac.C12
 open Signac.Conc
 variable {SP DV : Type} {hash : SP → JobId}
@@ -104,8 +105,9 @@ theorem sequential_schedule_completes (s : Sys SP DV) : AllDone (run hash s (seq
     directories are exactly the requested ones (there initially, or named by some script); every
     one of them holds a complete state point file that hashes to its name (what `check()` verifies);
     no state point file lies outside a job directory; the document of every job with at most one
-    writing process is the initial document with that process's assignments applied in program
-    order; no temp file is left. -/
+    writing process is the initial document with that process's writes applied in program order
+    (`applySets`: `doc[k] = x` sets the key, a whole-document assignment `doc = d` makes the document
+    BE `d`); no temp file is left. -/
 theorem final_closed_form {fs : FS SP DV} (hv : ValidStart hash fs) (scripts : List (List (Op SP DV)))
     (sched : List Nat) (hd : AllDone (run hash (startSys fs scripts) sched)) :
     FinalSpec hash fs scripts (run hash (startSys fs scripts) sched).fs :=
@@ -130,6 +132,96 @@ theorem final_is_sequential {fs : FS SP DV} (hv : ValidStart hash fs) (scripts :
           (run hash (startSys fs scripts) (seqSched (startSys fs scripts))).fs :=
   ⟨seq_completes _, absEq_of_spec (final_spec hv scripts sched hd)
       (final_spec hv scripts _ (seq_completes _)) hsw⟩
+
+/-! ### readers only see operation boundaries
+
+  `boundaries init ws`: `init`, then the document after the 1st, 2nd, … of the writes `ws`
+  (`mem_boundaries_iff`: exactly the values `applySets init (ws.take n)`).  `writesOf hash i w scripts`
+  are the writes (`doc[k] = x` → `.set k x`, `doc = d` → `.assign d`) of actor `w` on job `i` in
+  program order; `SingleWriter hash i w scripts`: no other actor writes that document. -/
+
+/-- In every state of every schedule, the PUBLISHED document of a job whose document has a single
+    writing actor is one of that writer's operation-boundary values: the initial document, or the
+    document after the writer's first `n` completed writes.  In particular a whole-document
+    assignment is one write: nothing between "before" and "the assigned mapping" (such as the
+    emptied document of a `clear()`-then-`reset()` implementation) is ever published. -/
+theorem published_is_boundary {fs : FS SP DV} (hfs : FsInv hash fs)
+    (hnt : ∀ i k a, fs.get (.tmp i k a) = none) (scripts : List (List (Op SP DV)))
+    {i : JobId} {w : Nat} (hsw : SingleWriter hash i w scripts) (sched : List Nat) :
+    docNow (run hash (startSys fs scripts) sched).fs i ∈
+      boundaries (docNow fs i) (writesOf hash i w scripts) :=
+  published_boundary hfs hnt scripts hsw sched
+
+/-- Every READ of such a document, by any actor at any point of any schedule, returns a boundary
+    value: an actor about to read the document file of job `i` (program counter `dload v`,
+    `hash v = i`: the load of a `doc[k] = x` or of a `doc()`) continues exactly as `resumeDload`
+    with a boundary value `d` of the single writer (a missing file reads as the empty document,
+    which then IS the initial value). -/
+theorem read_returns_boundary {fs : FS SP DV} (hfs : FsInv hash fs)
+    (hnt : ∀ i k a, fs.get (.tmp i k a) = none) (scripts : List (List (Op SP DV)))
+    {i : JobId} {w : Nat} (hsw : SingleWriter hash i w scripts) (sched : List Nat)
+    {a : Nat} {st : AState SP DV} {v : SP}
+    (hst : (run hash (startSys fs scripts) sched).actors[a]? = some st)
+    (hph : st.phase = .dload v) (hv : hash v = i) :
+    next hash a st = some (.read (.file i .doc)) ∧
+    ∃ d, d ∈ boundaries (docNow fs i) (writesOf hash i w scripts) ∧
+      resume hash st (exec (run hash (startSys fs scripts) sched).fs (.read (.file i .doc))).2
+        = resumeDload hash st v d := by
+  subst hv
+  have hS := run_inv (initial_inv hfs hnt scripts) sched
+  refine ⟨by simp only [next, hph], _, published_boundary hfs hnt scripts hsw sched, ?_⟩
+  exact (tr_dload hS.fs (hS.actors a st hst) hph).2
+
+/-- **Readers only see operation boundaries.**  In every reachable state of every schedule, for
+    every actor: the values handed back so far (`st.out`, newest first) are exactly explained by the
+    operations the actor has completed (`pre`, the part of its program `Project(); script` that is
+    no longer on `st.script`): one value per `doc()` / `len(project)`, in program order, and the
+    document handed back by a `doc()` on a job with id `j` is — for every actor `w` that is the
+    single writer of that job's document — one of `w`'s operation-boundary values
+    (`IsBoundary`: `∀ w, SingleWriter hash j w scripts → d ∈ boundaries (docNow fs j) (writesOf hash j w scripts)`). -/
+theorem reads_see_boundaries {fs : FS SP DV} (hfs : FsInv hash fs)
+    (hnt : ∀ i k a, fs.get (.tmp i k a) = none) (scripts : List (List (Op SP DV))) (sched : List Nat)
+    {a : Nat} {st : AState SP DV}
+    (hst : (run hash (startSys fs scripts) sched).actors[a]? = some st) :
+    ∃ sc pre, scripts[a]? = some sc ∧ .project :: sc = pre ++ st.script ∧
+      Explains hash (IsBoundary hash fs scripts) pre st.out.reverse :=
+  obsInv_reachable hfs hnt scripts sched a st hst
+
+/-- The same in membership form, for a reader all of whose `doc()` calls are on job `i`: every
+    document it has been handed back is a boundary value of the single writer `w`. -/
+theorem reads_see_boundaries_mem {fs : FS SP DV} (hfs : FsInv hash fs)
+    (hnt : ∀ i k a, fs.get (.tmp i k a) = none) (scripts : List (List (Op SP DV))) (sched : List Nat)
+    {i : JobId} {w : Nat} (hsw : SingleWriter hash i w scripts)
+    {a : Nat} {sc : List (Op SP DV)} {st : AState SP DV} (hsc : scripts[a]? = some sc)
+    (hi : ∀ v, .docGet v ∈ sc → hash v = i)
+    (hst : (run hash (startSys fs scripts) sched).actors[a]? = some st)
+    (d : Doc DV) (hd : .doc d ∈ st.out) :
+    d ∈ boundaries (docNow fs i) (writesOf hash i w scripts) := by
+  obtain ⟨sc', pre, hsc', hpre, hex⟩ := reads_see_boundaries hfs hnt scripts sched hst
+  rw [hsc] at hsc'; cases hsc'
+  refine explains_mem hex ?_ d (List.mem_reverse.2 hd) w hsw
+  intro v hv
+  have : Op.docGet v ∈ (.project :: sc : List (Op SP DV)) := by
+    rw [hpre]; exact List.mem_append_left _ hv
+  rcases List.mem_cons.1 this with h | h
+  · cases h
+  · exact hi v h
+
+/-- … and for an actor that is done, all of its program is explained: the `n`-th value it handed
+    back belongs to the `n`-th `doc()` / `len(project)` of its script. -/
+theorem reads_see_boundaries_done {fs : FS SP DV} (hfs : FsInv hash fs)
+    (hnt : ∀ i k a, fs.get (.tmp i k a) = none) (scripts : List (List (Op SP DV))) (sched : List Nat)
+    {a : Nat} {st : AState SP DV}
+    (hst : (run hash (startSys fs scripts) sched).actors[a]? = some st) (hfin : st.phase = .fin) :
+    ∃ sc, scripts[a]? = some sc ∧
+      Explains hash (IsBoundary hash fs scripts) (.project :: sc) st.out.reverse := by
+  obtain ⟨sc, pre, hsc, hpre, hex⟩ := reads_see_boundaries hfs hnt scripts sched hst
+  have hS := run_inv (initial_inv hfs hnt scripts) sched
+  have hF : AllFinOk (run hash (startSys fs scripts) sched) := allFinOk_run (allFinOk_start fs scripts) sched
+  have hnil := hF a st hst (hS.actors a st hst).noFail hfin
+  rw [hnil, List.append_nil] at hpre
+  exact ⟨sc, hsc, hpre ▸ hex⟩
+
 
 /-- The same without the single-writer hypothesis is FALSE of the model (and of signac): two
     processes assigning different keys of the same job document can lose one of the updates.  Kept
@@ -220,10 +312,65 @@ example : ∀ i, ∃ w, SingleWriter (id : String → JobId) i w
   intro a sc hsc hne
   match a, hsc with
   | 0, _ => exact absurd rfl hne
-  | 1, hsc => simp at hsc; subst hsc; simp [pendingSets]
+  | 1, hsc => simp at hsc; subst hsc; simp [pendingSets, writeOn]
   | n+2, hsc => simp at hsc
 example : allDoneB (run (id : String → JobId)
     (startSys luFs [[.init "j", .docSet "j" "k" 5], [.init "j", .docGet "j"]])
     [0,1,0,1,0,1,0,0,1,1,0,0,0,1,1,1,0,0,0,0,0]) = true := by decide
+
+/-! non-vacuity of `published_is_boundary` / `reads_see_boundaries`: the job "j" exists with the
+    document {"k": 0, "o": 9}; actor 0 writes `doc["k"] = 5`, then assigns `doc = {"z": 1}`;
+    actor 1 reads the document three times. -/
+
+def bFs : FS String Nat := luFs.set (.file "j" .doc) (.file (.docc [("k", 0), ("o", 9)]))
+def bScripts : List (List (Op String Nat)) :=
+  [[.docSet "j" "k" 5, .docAssign "j" [("z", 1)]], [.docGet "j", .docGet "j", .docGet "j"]]
+
+/-- the hypotheses `hfs`, `hnt`, `hsw` -/
+example : FsInv (id : String → JobId) bFs :=
+  fsinv_set luFs_valid.inv (show NodeOk id (Path.file "j" .doc) (Node.file (.docc [("k", 0), ("o", 9)]))
+    from ⟨_, rfl, trivial⟩) (by decide)
+example : ∀ i k a, bFs.get (.tmp i k a) = none := by
+  intro i k a; simp [bFs, luFs, get_set, FS.get]
+example : SingleWriter (id : String → JobId) "j" 0 bScripts := by
+  intro a sc hsc hne
+  match a, hsc with
+  | 0, _ => exact absurd rfl hne
+  | 1, hsc => simp [bScripts] at hsc; subst hsc; simp [pendingSets, writeOn]
+  | n+2, hsc => simp [bScripts] at hsc
+
+/-- the three boundary values; the empty document is NOT one of them -/
+example : boundaries (docNow bFs "j") (writesOf (id : String → JobId) "j" 0 bScripts)
+    = [[("k", 0), ("o", 9)], [("k", 5), ("o", 9)], [("z", 1)]] := by decide
+example : ([] : Doc Nat) ∉ boundaries (docNow bFs "j") (writesOf (id : String → JobId) "j" 0 bScripts) := by
+  decide
+
+def docsOf : List (Obs String Nat) → List (Doc Nat)
+  | [] => []
+  | .doc d :: r => d :: docsOf r
+  | _ :: r => docsOf r
+
+/-- a schedule in which the reader sees all three of them, one after the other -/
+example : ((run (id : String → JobId) (startSys bFs bScripts)
+      [1,1,1, 0,0,0,0,0,0,0, 1,1, 0,0,0,0,0, 1,1]).actors[1]?.map (fun st => docsOf st.out.reverse))
+    = some [[("k", 0), ("o", 9)], [("k", 5), ("o", 9)], [("z", 1)]] := by decide
+/-- the reader reads while the writer is in the middle of the assignment (temp file opened and
+    written, not yet renamed): it still gets the value before the assignment, then the mapping -/
+example : ((run (id : String → JobId) (startSys bFs bScripts)
+      [0,0,0,0,0,0,0, 0,0,0, 1,1,1, 0,0, 1,1,1,1]).actors[1]?.map (fun st => docsOf st.out.reverse))
+    = some [[("k", 5), ("o", 9)], [("z", 1)], [("z", 1)]] := by decide
+/-- `final_closed_form` on this instance: the final document is the assigned mapping -/
+example : docNow (run (id : String → JobId) (startSys bFs bScripts)
+      [0,0,0,0,0,0,0, 0,0,0, 1,1,1, 0,0, 1,1,1,1]).fs "j"
+    = applySets (docNow bFs "j") (writesOf (id : String → JobId) "j" 0 bScripts) := by decide
+/-- the property is not vacuous about the regression it is meant to catch: an assignment
+    implemented as TWO writes (`clear()`, then `reset(mapping)`) — in the model: the script
+    `doc = {}; doc = {"z": 1}` — does let a reader see the emptied document, which is not a
+    boundary value of the one-write script above -/
+example : ((run (id : String → JobId)
+      (startSys bFs [[.docAssign "j" [], .docAssign "j" [("z", 1)]], [.docGet "j"]])
+      [0,0,0,0,0,0, 1,1,1]).actors[1]?.map (fun st => docsOf st.out.reverse)) = some [[]] := by decide
+example : allDoneB (run (id : String → JobId) (startSys bFs bScripts)
+      [0,0,0,0,0,0,0, 0,0,0, 1,1,1, 0,0, 1,1,1,1]) = true := by decide
 
 end Signac.C12
